@@ -3,7 +3,7 @@
 #   tools/verify_seeded.sh <seed-dir-name> [nosuite]      (works in the scratch worktree /var/tmp/rebase/repo)
 D=/verif/seeded/$1; W=/var/tmp/rebase/repo; OUT=$D/verified.txt
 [ -d $W ] || git -C /repo worktree add -q --detach $W HEAD
-cd $W && git reset -q --hard && git clean -qfd -e target
+cd $W && git reset -q --hard && git checkout -q --detach $(git -C /repo rev-parse HEAD) && git clean -qfd -e target
 export CARGO_NET_OFFLINE=true
 {
 echo "verified against /repo HEAD $(git -C /repo rev-parse --short HEAD) in scratch worktree $W"
